@@ -101,6 +101,13 @@ fn c02_work(seed: u64, tier: Tier, idx: u64) -> Option<Scenario> {
         return Some(c02::ladder(seed, idx));
     }
     let idx = idx - c02::LADDER;
+    // then the position sweep over the half-written program (every second cut in the quick tier)
+    let cuts = c02::sweep_docs().len() as u64;
+    let stride = if tier == Tier::Quick { 2 } else { 1 };
+    if idx < cuts / stride {
+        return c02::position_sweep(seed, idx * stride + if tier == Tier::Quick { seed % 2 } else { 0 });
+    }
+    let idx = idx - cuts / stride;
     if idx < random {
         Some(c02::generate(seed, idx))
     } else {
